@@ -36,6 +36,7 @@ CONSTANTS MeshIds, MatIds, InstCounts, TrsKinds, MaxModels, MaxLights, Pad, Deep
 Ran(s) == {s[i] : i \in DOMAIN s}
 SetMin(S) == CHOOSE x \in S : \A y \in S : x <= y
 A(ar, id) == [ar |-> ar, id |-> id]
+Sp(a, i, c, k) == [a |-> a, i |-> i, c |-> c, k |-> k]   \* attribute (0-based position in attrs), vertex, component, kind
 
 (* ----------------------------- pools ----------------------------------- *)
 \* attribute ids as in harness/project: 1 Position 2 Normal 3 Color 4 TexCoord 6 Intensity 7 Joint 8 Weight 13 Custom
@@ -51,7 +52,23 @@ MeshPool == <<
      attrs |-> <<A(3, 1), A(3, 13), A(1, 6)>>, vseed |-> 6],                                                      \* 6: scalar + custom, unreferenced vertices
     [topo |-> "triangle", nv |-> 3, ni |-> 3, idx |-> <<0, 1, 2>>, attrs |-> <<A(3, 1)>>, vseed |-> 1],              \* 7: equal by value to 1, other pointer
     [topo |-> "triangle", nv |-> 65535, ni |-> 3, idx |-> <<>>, attrs |-> <<A(3, 1)>>, vseed |-> 8],                \* 8: last 16-bit size
-    [topo |-> "triangle", nv |-> 65536, ni |-> 6, idx |-> <<>>, attrs |-> <<A(3, 1), A(2, 4)>>, vseed |-> 9]        \* 9: first 32-bit size
+    [topo |-> "triangle", nv |-> 65536, ni |-> 6, idx |-> <<>>, attrs |-> <<A(3, 1), A(2, 4)>>, vseed |-> 9],       \* 9: first 32-bit size
+    \* Round 2: special IEEE values written over the data (harness: SpecialValue).  Sizes are all this
+    \* model knows of a mesh, so they change nothing HERE -- which is the point: whatever the values
+    \* are, the bytes appended must be the bytes counted.
+    [topo |-> "triangle", nv |-> 4, ni |-> 6, idx |-> <<0, 1, 2, 2, 1, 3>>, attrs |-> <<A(3, 1), A(3, 2), A(2, 4)>>, vseed |-> 2,
+     spec |-> <<Sp(2, 1, 0, 1), Sp(1, 3, 2, 12)>>],                                                               \* 10: NaN in ONE component of a vec2 / vec3 element
+    [topo |-> "point", nv |-> 3, ni |-> 3, idx |-> <<2, 0, 1>>, attrs |-> <<A(3, 1), A(4, 3)>>, vseed |-> 11,
+     spec |-> <<Sp(1, 1, 3, 1)>>],                                                                                \* 11: NaN in a vec4 (Color)
+    [topo |-> "triangle", nv |-> 3, ni |-> 3, idx |-> <<0, 1, 2>>, attrs |-> <<A(3, 1)>>, vseed |-> 12,
+     spec |-> <<Sp(0, 0, 0, 2), Sp(0, 2, 1, 3)>>],                                                                \* 12: +Inf / -Inf positions
+    [topo |-> "point", nv |-> 5, ni |-> 5, idx |-> <<0, 1, 2, 3, 4>>, attrs |-> <<A(3, 1), A(2, 4), A(4, 8)>>, vseed |-> 13,
+     spec |-> <<Sp(0, 0, 0, 4), Sp(0, 1, 1, 5), Sp(0, 2, 2, 6), Sp(0, 3, 0, 7), Sp(1, 0, 0, 8), Sp(1, 1, 1, 9), Sp(1, 2, 0, 10),
+                Sp(1, 3, 1, 13), Sp(2, 0, 0, 14), Sp(2, 1, 1, 11), Sp(2, 4, 3, 4)>>],                             \* 13: finite doubles at the edges of float32
+    [topo |-> "point", nv |-> 2, ni |-> 2, idx |-> <<1, 0>>, attrs |-> <<A(3, 1), A(2, 4)>>, vseed |-> 14,
+     spec |-> <<Sp(0, 0, 0, 1), Sp(0, 1, 0, 1), Sp(1, 0, 0, 1), Sp(1, 0, 1, 12), Sp(1, 1, 0, 1), Sp(1, 1, 1, 1)>>], \* 14: a component / an accessor that is NaN throughout
+    [topo |-> "triangle", nv |-> 4, ni |-> 6, idx |-> <<0, 1, 2, 2, 1, 3>>, attrs |-> <<A(3, 1), A(2, 4)>>, vseed |-> 2,
+     spec |-> <<Sp(0, 2, 0, 1), Sp(0, 2, 1, 1), Sp(0, 2, 2, 12), Sp(1, 0, 0, 1), Sp(1, 0, 1, 1)>>]                 \* 15: whole elements NaN
 >>
 
 TexPool == <<
